@@ -144,9 +144,13 @@ def gen_correspondence(rep: Report, rng, tier: str) -> Corr:
     for i in range(6 * reps):
         n, d = pick_nd()
         fs = tu.rand_int_chain(rng, n, (d,), rng.choice([1, 2, 4, 8]), 4)
-        c = complex(rng.randint(-3, 3), rng.randint(-3, 3))
+        c = complex(rng.randint(-3, 3), rng.randint(-3, 3)) if i >= 2 else [1, 0][i]
         which = rng.choice([0, n - 1, rng.randrange(n), n, n + 3])
-        S = algebra.scale_factors([f.clone() for f in fs], c, which=which)
+        given = [f.clone() for f in fs]
+        S = algebra.scale_factors(given, c, which=which)
+        if S is given:
+            rep.fail(f"scale_factors(factors, {c!r}, which={which}) returned the very list it was given (documented: a new list)",
+                     {"kind": "value_semantics", "case_seed": 0})
 
         def cmp_scale(reply, S=S):
             ms, _ = tu.dec_chain(reply.split(), "z")
@@ -158,7 +162,7 @@ def gen_correspondence(rep: Report, rng, tier: str) -> Corr:
         n, d = pick_nd()
         fs = tu.rand_int_chain(rng, n, (d,), rng.choice([1, 2, 3, 4]), 3)
         center = rng.choice([None, 0, n - 1, rng.randrange(n), rng.randrange(n)])
-        c = complex(rng.randint(-3, 3), rng.randint(-3, 3))
+        c = complex(rng.randint(-3, 3), rng.randint(-3, 3)) if i >= 3 else [1, -1, 0][i]
         st = _mps(MPS, fs, d, center=center)
         out = (c * st) if i % 2 == 0 else st.__imul__(c)
         res, rc = [f.clone() for f in out.factors], out.orthogonality_center
@@ -426,13 +430,30 @@ def gen_correspondence(rep: Report, rng, tier: str) -> Corr:
 
 # =============================================================================== oracle on the real code
 ORACLE_KINDS = ["add_scale", "inner_norm", "apply_expect", "mpo_algebra", "site_obs", "from_amps", "from_op", "corr_custom",
-                "recorded_centre"]
+                "recorded_centre", "value_semantics"]
 
 
 def _close(x, ref, tol):
     import torch
     x, ref = torch.as_tensor(x), torch.as_tensor(ref)
     return float((x - ref).abs().max()) <= tol if x.numel() else True
+
+
+def _reread(tu, torch, x, v, ops, n, tol):
+    """re-read a state through its public interface against the dense vector it must (still) represent"""
+    sc = max(1.0, float(v.norm()))
+    dv = tu.dense_state(x.factors)
+    if float((dv - v).norm()) > tol * sc:
+        return f"dense vector moved by {float((dv - v).norm()):.3e}"
+    nr = float(x.norm())
+    if abs(nr - float(v.norm())) > tol * sc:
+        return f"norm() = {nr!r} but the dense norm is {float(v.norm())!r} (recorded centre {x.orthogonality_center})"
+    eb = x.expect_batch(ops)
+    for q in range(n):
+        ref = complex(torch.vdot(v, tu.apply_1site(v, ops[0], q, n)))
+        if abs(complex(eb[q, 0]) - ref) > 10 * tol * sc * sc * max(1.0, float(ops[0].abs().max())):
+            return f"expect_batch[{q}] = {complex(eb[q, 0])} ≠ dense {ref} (recorded centre {x.orthogonality_center})"
+    return None
 
 
 def oracle_case(kind: str, cs: int) -> list[tuple[str, dict, str | None]]:
@@ -715,6 +736,106 @@ def oracle_case(kind: str, cs: int) -> list[tuple[str, dict, str | None]]:
             judge(a, tu.apply_1site(v, ops[0], q, n), f"apply({q}) after {tag}")
             if fails:
                 break
+    elif kind == "value_semantics":
+        # no aliasing: after any algebra operation, mutating the result must not change an operand, and vice versa.
+        # Scalars exactly 1 / 1.0 / 1+0j / -1 / 0 included (a "multiply by one is a no-op" shortcut must still copy).
+        n = min(n, 5)
+        info["n"] = n
+        ops = (torch.randn(2, d, d, dtype=torch.float64, generator=g) + 1j * torch.randn(2, d, d, dtype=torch.float64, generator=g)).to(tu.DT)
+
+        def mutate(x, how):
+            if how == "corr":
+                x.get_correlation_matrix()
+            elif how == "entropy":
+                x.entanglement_entropy(rng.randrange(n))
+            elif how == "orthogonalize":
+                x.orthogonalize(rng.randrange(n))
+            elif how == "apply":
+                x.apply(rng.randrange(n), ops[1])
+            elif how == "truncate":
+                x.truncate()
+            elif how == "sample":
+                x.sample(num_shots=3)
+
+        MUTS = ["corr", "entropy", "orthogonalize", "apply", "truncate", "sample"]
+        scalars = [1, 1.0, 1 + 0j, -1, 0, torch.tensor(1.0), complex(rng.uniform(-2, 2), rng.uniform(-2, 2))]
+        for trial in range(10):
+            a, fa = mk(dmax=6, center=None)
+            va = tu.dense_state(fa)
+            start = rng.choice([None, "orth", "apply"])
+            if start == "orth":
+                a.orthogonalize(rng.randrange(n))
+            elif start == "apply":
+                q0 = rng.randrange(n)
+                a.apply(q0, ops[0])
+                va = tu.apply_1site(va, ops[0], q0, n)
+            b, fb = mk(dmax=4)
+            vb = tu.dense_state(fb)
+            opname = rng.choice(["rmul", "rmul", "rmul", "imul", "add", "apply_to"])
+            others = []
+            if opname in ("rmul", "imul"):
+                c = scalars[trial % len(scalars)] if trial < len(scalars) else rng.choice(scalars)
+                r = (c * a) if opname == "rmul" else a.__imul__(c)
+                vr = complex(c) * va
+                opname = f"{opname} by {c!r}"
+            elif opname == "add":
+                r = a + b
+                vr = va + vb
+                others = [("other", b, vb)]
+            else:
+                O, ws = mko(3)
+                r = O.apply_to(a)
+                vr = tu.dense_op(ws) @ va
+            ttol = 2 * (n - 1) * prec if ("add" in opname or "apply_to" in opname) else 0.0
+            how = rng.choice(MUTS)
+            if how == "sample" and float(vr.norm()) == 0.0:
+                how = "corr"            # the zero vector cannot be sampled (torch.multinomial rejects it)
+            tag = f"{opname} (operand prepared by {start}), then {how} on the "
+            if r.factors is a.factors:
+                bad(f"{opname}: the result shares its `factors` list object with the operand", op=opname)
+            # mutate the result, re-read the operands
+            try:
+                mutate(r, how)
+            except Exception as e:
+                bad(f"{tag}result raised {type(e).__name__}: {e}", op=opname, mutation=how)
+                break
+            for nm, x, v in [("self", a, va)] + others:
+                msg = _reread(tu, torch, x, v, ops, n, 1e-8)
+                if msg:
+                    bad(f"{tag}RESULT changed the operand `{nm}`: {msg}", op=opname, mutation=how)
+            # and the other way round: mutate the operand, re-read the result
+            if how == "apply":
+                vr_now = tu.dense_state(r.factors)      # the result was changed on purpose by apply()
+            else:
+                vr_now = vr
+            how2 = rng.choice(MUTS)
+            try:
+                mutate(a, how2)
+            except Exception as e:
+                bad(f"{opname}, then {how2} on the operand raised {type(e).__name__}: {e}", op=opname, mutation=how2)
+                break
+            msg = _reread(tu, torch, r, vr_now, ops, n, 1e-8 + ttol)
+            if msg:
+                bad(f"{opname}, then {how2} on the OPERAND changed the result: {msg}", op=opname, mutation=how2)
+            if fails:
+                break
+        # MPO: list-level value semantics (there is no public mutating MPO operation; update_H writes into `factors`)
+        O, ws = mko(3)
+        M = tu.dense_op(ws)
+        for c in [1, 1.0, 1 + 0j, -1, 0, complex(rng.uniform(-2, 2), rng.uniform(-2, 2))]:
+            R = c * O
+            if R.factors is O.factors:
+                bad(f"MPO.__rmul__ by {c!r}: the result shares its `factors` list object with the operand")
+            if not _close(tu.dense_op(R.factors), complex(c) * M, 1e-9 * max(1.0, float(M.abs().max()))):
+                bad(f"MPO.__rmul__ by {c!r}: dense(c·O) ≠ c·dense(O)")
+            R.factors[0] = 2.0 * R.factors[0]
+            if not _close(tu.dense_op(O.factors), M, 1e-12):
+                bad(f"writing a factor of c·O (c = {c!r}) changed O")
+        P2, w2 = mko(3)
+        for R, nm in ((O + P2, "+"), (O @ P2, "@")):
+            R.factors[-1] = 3.0 * R.factors[-1]
+            if not (_close(tu.dense_op(O.factors), M, 1e-12) and _close(tu.dense_op(P2.factors), tu.dense_op(w2), 1e-12)):
+                bad(f"writing a factor of O {nm} P changed an operand")
     elif kind == "corr_custom":
         # the two Lean witnesses (Props.C11.corr_*_counterexample) replayed on the real code
         A0 = torch.tensor([[[1.0], [1.0j]]], dtype=tu.DT)
@@ -814,7 +935,7 @@ def check(rep: Report, tier: str, seed: int) -> None:
         C = None
     if C is not None:
         C.run()
-    run_oracle(rep, rng, 81 if tier == "quick" else 2430)
+    run_oracle(rep, rng, 90 if tier == "quick" else 2500)
     if rep.broken and not any(f["class"] is None for f in rep.failing):
         search(rep, seed, 400 if tier == "quick" else 6000)
 
